@@ -101,7 +101,10 @@ Definition nni_apply_heap (q : hnni) (h : heap) : hres heap :=
   do e1 <- br_at h n1 n12index;
   do e2 <- br_at h n2 n22index;
   do ed1 <- get_edge h e1;
-  do h <- (if Nat.eqb (hright ed1) n1 then
+  do ed2 <- get_edge h e2;
+  (* since the fix "NNI Apply left the central branch wrongly oriented when the tree had been
+     re-rooted into the clade that moves to n1": e1.Right() == n1 || e2.Right() == n2 *)
+  do h <- (if Nat.eqb (hright ed1) n1 || Nat.eqb (hright ed2) n2 then
              match n1n2index with
              | Some i => do ec <- br_at h n1 i; do edc <- get_edge h ec; HOk (set_edge h ec (flip edc))
              | None => HPanic
